@@ -15,11 +15,11 @@ func init() { registry["C19"] = checkC19 }
 
 // yieldSite is one call of the iterator's yield function.
 type yieldSite struct {
-	Call   *ast.CallExpr
-	Block  *cfg.Block
+	Call     *ast.CallExpr
+	Block    *cfg.Block
 	Returned bool // push idiom: the call is the operand of a return statement
-	IsCond bool // the call is (up to ! and parentheses) the whole condition ending its block
-	Negate bool // condition is !yield(...)
+	IsCond   bool // the call is (up to ! and parentheses) the whole condition ending its block
+	Negate   bool // condition is !yield(...)
 }
 
 func checkC19(ctx *Ctx) *Result {
@@ -717,6 +717,14 @@ func checkC19(ctx *Ctx) *Result {
 				good, detail = false, "children are flattened outside the join case of the dispatch"
 			}
 			r.check(good, "R19.2", desc+" (join element)", p.Pos(ys.Call.Pos()), detail, 1)
+			// every child is flattened, once: each pass through the outer
+			// loop's body starts exactly one recursive iteration
+			if ic != nil && outer.Body != nil {
+				bg := cfg.New(outer.Body, func(*ast.CallExpr) bool { return true })
+				min, max := yieldCounts(bg, func(c *ast.CallExpr) bool { return c == ic }, nil)
+				r.check(min == 1 && max == 1, "R19.2", "every child of a join is flattened exactly once @"+p.Pos(outer.Pos()), p.Pos(outer.Pos()),
+					fmt.Sprintf("a pass through the loop over the join's children starts between %d and %d recursive iterations (a child can be skipped or visited twice)", min, max), len(bg.Blocks))
+			}
 		default:
 			r.fail("R19.2", desc, p.Pos(ys.Call.Pos()), "yield is applied to something that is neither the error itself (outside loops) nor an element of a recursive flattening of a join's children")
 		}
@@ -850,6 +858,13 @@ func checkC19(ctx *Ctx) *Result {
 			}
 		}
 		r.check(bad == "", "R19.3", "nil is never appended to a joined list", "", bad, n)
+		// "the number of yielded errors equals the number of violations": every
+		// error constructed on the validation path reaches the joined list
+		r.rule("R4.1", "error discipline (L0) in validators and builder: every error value constructed is appended to the list that is joined and returned, none overwritten or dropped; no early exit; every validator consulted", 6)
+		for _, f := range sortedKeys(val.Lists) {
+			l0(ctx, r, "R4.1", val.Lists[f])
+		}
+		builderRule(ctx, r, "R4.1")
 	} else {
 		r.undecided("R19.3", "L0", strings.Join(vf.Problems, "; "))
 	}
